@@ -27,10 +27,10 @@ Definition invalid_nmea {A} : M A := Raise (Lib InvalidNMEAMessageException).
 (* util.checksum(sentence) = reduce(xor, sentence)                                                    *)
 Definition nmea_checksum (sentence : bytes) : M Z := reduce_xor sentence.
 
-(* util.compute_checksum(msg) for bytes:  msg = msg[1:].split(b'*', 1)[0];  return reduce(xor, msg) *)
+(* util.compute_checksum(msg) for bytes:  msg = msg[1:].split(b'*', 1)[0];  return reduce(xor, msg, 0) *)
 Definition compute_checksum (msg : bytes) : M Z :=
   body <- py_index (bsplit_max ASTERISK (py_slice msg (Some 1) None) 1) 0 ;;
-  reduce_xor body.
+  Ok (reduce_xor_init body 0).
 
 (* util.chk_to_int(chk_str) -> (fill_bits, checksum) *)
 Definition chk_to_int (chk_str : bytes) : M (Z * Z) :=
@@ -53,8 +53,12 @@ Definition nmea_init (raw : bytes) : M nmea_common :=
   let fields := bsplit COMMA raw in
   first_field <- py_index fields 0 ;;
   let delimiter := py_slice first_field None (Some 1) in
-  talker_id <- decode_ascii (py_slice first_field (Some 1) (Some 3)) ;;
-  type <- decode_ascii (py_slice first_field (Some 3) None) ;;
+  (* try: talker_id = ...decode('ascii'); type = ...decode('ascii')  except UnicodeDecodeError: raise Invalid... *)
+  '(talker_id, type) <- try_except
+                          (t <- decode_ascii (py_slice first_field (Some 1) (Some 3)) ;;
+                           y <- decode_ascii (py_slice first_field (Some 3) None) ;;
+                           Ok (t, y))
+                          [HPy UnicodeDecodeError] (fun _ => invalid_nmea) ;;
   checksum <- py_index fields (-1) ;;
   '(fill, check) <- chk_to_int checksum ;;
   computed <- compute_checksum raw ;;
@@ -104,6 +108,8 @@ Definition ais_init (raw : bytes) : M ais_sentence :=
   let '(frag_cnt, frag_num, seq_id, channel, payload) := r in
   if Z.of_nat (length payload) >? MAX_PAYLOAD_LEN then invalid_nmea else
   if (frag_cnt >? MAX_FRAG_CNT) || (frag_num >? MAX_FRAG_CNT) then invalid_nmea else
+  if (frag_cnt <? 1) || (frag_num <? 1) then invalid_nmea else
+  if negb ((0 <=? c_fill_bits c) && (c_fill_bits c <=? 5)) then invalid_nmea else
   bit_array <- decode_into_bit_array payload (c_fill_bits c) ;;
   let ais_id := get_int bit_array 0 6 false in
   Ok (mkAis c frag_cnt frag_num seq_id channel payload bit_array ais_id None).
@@ -133,7 +139,7 @@ Definition produce_inner (raw : bytes) : M sentence :=
 
 (* produce(raw) *)
 Definition produce (raw : bytes) : M sentence :=
-  if (length raw =? 0)%nat then invalid_nmea else
+  if (length (strip raw) =? 0)%nat then invalid_nmea else
   '(raw_sentence, tb) <- pre_process raw ;;
   sentence <- produce_inner raw_sentence ;;
   match tb with
